@@ -21,6 +21,9 @@ fn text(construct: &str, n: usize) -> String {
         // a deep right-nested operand that evaluation never reaches (the left operand decides)
         "and-skip-right" => format!("false and {}a{}", "(a and ".repeat(n), ")".repeat(n)),
         "or-skip-right" => format!("true or {}a{}", "(a or ".repeat(n), ")".repeat(n)),
+        // `==` / `!=` with a None on the left do not evaluate their right operand
+        "eq-none-skip-right" => format!("nothing == {}a", "!".repeat(n)),
+        "neq-none-skip-right" => format!("nothing != {}a{}", "(a and ".repeat(n), ")".repeat(n)),
         "and-chain-none" => format!("nothing{}", " and a".repeat(n)),
         "index-chain" => format!("a{}", ".b".repeat(n)),
         "parens" => format!("{}a{}", "(".repeat(n), ")".repeat(n)),
